@@ -176,6 +176,8 @@ struct World {
     pads: Vec<Vec<u8>>,
     quiet: bool, // do not record lines (scale mode)
     skipped: u64,
+    real_abort: bool, // child mode: really perform calls that abort the process
+    aborted: bool,
 }
 
 static mut WORLD: Option<World> = None;
@@ -292,6 +294,7 @@ fn reset_world(w: &mut World) {
     w.ub.clear();
     w.canary_bad.clear();
     w.panics = 0;
+    w.aborted = false;
     w.depth = 0;
     w.dropdepth = 0;
     w.pads.clear();
@@ -360,7 +363,11 @@ fn obs_json(w: &World, s: &mut String) {
             let p = o.addr as *const usize;
             (p.read_volatile(), p.add(1).read_volatile())
         };
-        let tbl = unsafe { id < track::MAXID && track::TBL_LIVE[id] > 0 };
+        // the table owns heap storage (asked from the library while the table is in place;
+        // storage of a moved-out table shows up in `blocks` until the table is dropped)
+        let tbl = !freed
+            && o.linit
+            && unsafe { verif::links_capacity::<Node>(o.addr) }.map_or(false, |c| c > 0);
         let _ = write!(
             s,
             "{{\"id\":{},\"mem\":\"{}\",\"strong\":{},\"weak\":{},\"vinit\":{},\"linit\":{},\"tbl\":{},\"nd\":{},\"nf\":{},\"links\":[",
@@ -640,6 +647,9 @@ fn exec(w: &mut World, op: &Op, in_dtor_of: Option<&Node>, dry: bool) -> Option<
                 return None;
             }
             go!();
+            if would_abort(w, a) {
+                return Some("abort".into());
+            }
             let p = &w.roots[a as usize][0] as *const Rc<Node>;
             let h = lib(|| unsafe { Rc::clone(&*p) });
             w.roots[a as usize].push(h);
@@ -656,6 +666,9 @@ fn exec(w: &mut World, op: &Op, in_dtor_of: Option<&Node>, dry: bool) -> Option<
                 &*sh.h as *const Rc<Node>
             };
             go!();
+            if would_abort(w, b) {
+                return Some("abort".into());
+            }
             let h = lib(|| unsafe { Rc::clone(&*p) });
             w.roots[b as usize].push(h);
             Some("ok".into())
@@ -862,6 +875,18 @@ fn exec(w: &mut World, op: &Op, in_dtor_of: Option<&Node>, dry: bool) -> Option<
     }
 }
 
+/// `inc_strong` on this object would abort the process (strong is 0 or usize::MAX). Unless
+/// the harness runs in child mode (C16) the call is not made: the abort is predicted from
+/// the raw counter and reported as the call's result, and the script ends there.
+fn would_abort(w: &World, o: u32) -> bool {
+    if w.real_abort {
+        return false;
+    }
+    let addr = w.objs[o as usize].addr;
+    let st = unsafe { (addr as *const usize).read_volatile() };
+    st == 0 || st == usize::MAX
+}
+
 fn adopt_call(adopt: bool, p1: *const Rc<Node>, p2: *const Rc<Node>) {
     unsafe {
         track::ATTR_ON = true;
@@ -912,7 +937,10 @@ fn top_call(w: &mut World, op: &Op) {
     }
     w.dropdepth = 0;
     w.depth = 0;
-    let seen = if w.ub.is_empty() && !w.quiet { seen_json(w) } else { "[]".to_string() };
+    if ret == "abort" {
+        w.aborted = true;
+    }
+    let seen = if w.ub.is_empty() && !w.quiet && !w.aborted { seen_json(w) } else { "[]".to_string() };
     line_ret(w, op, &ret, panicked, &seen);
 }
 
@@ -959,8 +987,8 @@ fn run_script(ops: &[Op], script_no: u64, layout: u64, out: &mut dyn Write) {
     for op in ops {
         let w = world();
         top_call(w, op);
-        if !w.ub.is_empty() || unsafe { track::NDOUBLE > 0 } {
-            break; // the library performed an illegal access: nothing after it is defined
+        if !w.ub.is_empty() || unsafe { track::NDOUBLE > 0 } || w.aborted {
+            break; // illegal access or process abort: nothing after it is defined
         }
     }
     unsafe {
@@ -993,6 +1021,152 @@ fn cmd_replay(args: &[String]) {
     eprintln!("replayed {} scripts x {} layouts, {} lines", n, layouts, world().lines);
 }
 
+// ---------------------------------------------------------------------------
+// Random driver (implementation -> specification direction)
+
+fn stored_count(w: &World, a: u32, b: u32) -> usize {
+    if !intact(w, a) {
+        return 0;
+    }
+    node(w, a).strong.borrow().iter().filter(|e| e.target == b).count()
+}
+
+/// adoptions of b recorded in a's table (Forward count), read from the library
+fn recorded_count(w: &World, a: u32, b: u32) -> usize {
+    let o = &w.objs[a as usize];
+    if !o.made || !o.linit || is_freed(o.addr) {
+        return 0;
+    }
+    let baddr = w.objs[b as usize].addr;
+    unsafe { verif::links_snapshot::<Node>(o.addr) }
+        .map(|v| v.iter().filter(|(k, p, _)| *k == 0 && *p == baddr).map(|(_, _, c)| *c).sum())
+        .unwrap_or(0)
+}
+
+fn drive_script(rng: &mut SmallRng, len: usize, nobj: u32, profile: &str, script_no: u64, layout: u64, out: &mut dyn Write) -> Vec<Op> {
+    let w = world();
+    reset_world(w);
+    w.layout_seed = layout;
+    w.out.clear();
+    let _ = writeln!(w.out, "{{\"k\":\"reset\",\"script\":{},\"layout\":{}}}", script_no, layout);
+    unsafe {
+        track::TRACK = true;
+    }
+    let strict = profile != "stale";
+    let weak = profile != "core";
+    let mut done: Vec<Op> = Vec::new();
+    let build: &[&str] = &["New", "New", "CloneRoot", "CloneRoot", "AdoptStore", "AdoptStore", "AdoptStore", "Store", "CloneStored", "Adopt", "AdoptSame"];
+    let mix: &[&str] = &["CloneRoot", "CloneStored", "DropRoot", "DropRoot", "Store", "Take", "DropStored", "Adopt", "Unadopt", "AdoptSame",
+        "UnadoptSame", "AdoptStore", "TakeUnadopt", "TakeUnadopt", "New"];
+    let wk: &[&str] = &["Downgrade", "Downgrade", "Upgrade", "UpgradeStored", "WeakClone", "WeakDrop", "StoreWeak", "TakeWeak"];
+    let tear: &[&str] = &["DropRoot", "DropRoot", "DropRoot", "DropStored", "TakeUnadopt", "WeakDrop", "Upgrade"];
+    let mut step = 0usize;
+    let mut attempts = 0usize;
+    while step < len && attempts < len * 30 {
+        attempts += 1;
+        let w = world();
+        let n = (w.objs.len() - 1) as u32;
+        let phase = step * 3 / len.max(1);
+        let pool: &[&str] = match phase {
+            0 => build,
+            1 => {
+                if weak && rng.gen_range(0..3) == 0 {
+                    wk
+                } else {
+                    mix
+                }
+            }
+            _ => {
+                if rng.gen_range(0..4) == 0 {
+                    mix
+                } else {
+                    tear
+                }
+            }
+        };
+        let name = pool[rng.gen_range(0..pool.len())];
+        if name == "New" && n >= nobj {
+            continue;
+        }
+        if n == 0 && name != "New" {
+            continue;
+        }
+        let a = if n == 0 { 0 } else { rng.gen_range(1..=n) };
+        let b = if n == 0 { 0 } else { rng.gen_range(1..=n) };
+        let op = Op { op: name.to_string(), a: if name == "New" { n + 1 } else { a }, b: match name {
+            "New" | "CloneRoot" | "DropRoot" | "AdoptSame" | "UnadoptSame" | "Downgrade" | "Upgrade" | "WeakClone" | "WeakDrop" => 0,
+            _ => b,
+        }, d: Script { op: "none".into(), x: 0, y: 0 } };
+        if strict && n > 0 {
+            // respect the contract of adopt_unchecked: never more records than stored handles
+            let ok = match name {
+                "Adopt" => recorded_count(w, a, b) < stored_count(w, a, b),
+                "Take" | "DropStored" => recorded_count(w, a, b) < stored_count(w, a, b),
+                _ => true,
+            };
+            if !ok {
+                continue;
+            }
+        }
+        if exec(w, &op, None, true).is_none() {
+            continue;
+        }
+        top_call(w, &op);
+        done.push(op);
+        step += 1;
+        let w = world();
+        if !w.ub.is_empty() || unsafe { track::NDOUBLE > 0 } || w.aborted {
+            break;
+        }
+    }
+    unsafe {
+        track::TRACK = false;
+    }
+    let w = world();
+    out.write_all(w.out.as_bytes()).unwrap();
+    w.out.clear();
+    done
+}
+
+fn op_json(ops: &[Op]) -> String {
+    let mut s = String::from("[");
+    for (i, o) in ops.iter().enumerate() {
+        if i > 0 {
+            s.push(',');
+        }
+        let _ = write!(
+            s,
+            "{{\"op\":\"{}\",\"a\":{},\"b\":{},\"d\":{{\"op\":\"{}\",\"x\":{},\"y\":{}}}}}",
+            o.op,
+            o.a,
+            o.b,
+            if o.d.op.is_empty() { "none" } else { &o.d.op },
+            o.d.x,
+            o.d.y
+        );
+    }
+    s.push(']');
+    s
+}
+
+fn cmd_drive(args: &[String]) {
+    // drive <seed> <nscripts> <len> <nobj> <profile> <scripts-out> <trace-out>
+    let seed: u64 = args[0].parse().unwrap();
+    let nscripts: u64 = args[1].parse().unwrap();
+    let len: usize = args[2].parse().unwrap();
+    let nobj: u32 = args[3].parse().unwrap();
+    let profile = args[4].clone();
+    let mut sout = BufWriter::new(std::fs::File::create(&args[5]).expect("scripts out"));
+    let mut tout = BufWriter::new(std::fs::File::create(&args[6]).expect("trace out"));
+    let mut rng = SmallRng::seed_from_u64(seed);
+    for n in 0..nscripts {
+        let ops = drive_script(&mut rng, len, nobj, &profile, n, 0, &mut tout);
+        writeln!(sout, "{}", op_json(&ops)).unwrap();
+        tout.flush().unwrap();
+    }
+    eprintln!("drove {} scripts, {} lines", nscripts, world().lines);
+}
+
 fn main() {
     verif::set_sink(Some(sink));
     // silence the default panic message for scripted panics
@@ -1000,6 +1174,7 @@ fn main() {
     let args: Vec<String> = std::env::args().collect();
     match args.get(1).map(String::as_str) {
         Some("replay") => cmd_replay(&args[2..]),
+        Some("drive") => cmd_drive(&args[2..]),
         _ => {
             eprintln!("usage: cactus-harness replay <scripts> <out> [layouts]");
             std::process::exit(2);
